@@ -255,6 +255,8 @@ func symPool(rnd *mrand.Rand, extra int) []poolKey {
 		{Class: "24:ff", Sym: mk(24, 0xff, func(int) byte { return 0xff })},
 		{Class: "16:zero", Sym: mk(16, 0, func(int) byte { return 0 })},
 		{Class: "7:odd", Sym: mk(7, 0x00, rb)},
+		{Class: "20:hmac", Sym: mk(20, 0x13, rb)},
+		{Class: "33:odd", Sym: mk(33, 0x21, rb)},
 		{Class: "64:plain", Sym: mk(64, 0x41, rb)},
 	}
 	for i := 0; i < extra; i++ {
@@ -340,7 +342,43 @@ func newWorld() (*world, error) {
 
 // ---------------------------------------------------------------- transport
 
+// carve returns the key as an application may hold it: a part of a larger buffer (the bytes after it belong to something else).
+// Registering and transporting a key reads it: the bytes around it stay what they were (checked after the transport).
+var carvedCheck func() string
+
+func carve(key []byte) []byte {
+	buf := make([]byte, len(key)+24)
+	for i := range buf {
+		buf[i] = 0xA5
+	}
+	copy(buf[8:], key)
+	k := buf[8 : 8+len(key)]
+	carvedCheck = func() string {
+		for i, b := range buf {
+			if (i < 8 || i >= 8+len(key)) && b != 0xA5 {
+				return fmt.Sprintf("the byte at offset %d relative to the key (length %d) of the caller's buffer was overwritten with %#02x", i-8, len(key), b)
+			}
+		}
+		if !bytes.Equal(k, key) {
+			return "the caller's key bytes were modified"
+		}
+		return ""
+	}
+	return k
+}
+
 func transport(w *world, c Case, ex kmipclient.ExecRegister) (*payloads.GetResponsePayload, string) {
+	g, p := transport0(w, c, ex)
+	if chk := carvedCheck; chk != nil {
+		carvedCheck = nil
+		if m := chk(); m != "" && p == "" {
+			return g, "callers-buffer-modified: " + m
+		}
+	}
+	return g, p
+}
+
+func transport0(w *world, c Case, ex kmipclient.ExecRegister) (*payloads.GetResponsePayload, string) {
 	ver := versions[c.Ver]
 	req := ex.RequestPayload()
 	switch c.Enc {
@@ -629,7 +667,7 @@ func build(cl *kmipclient.Client, c Case, k poolKey) (ex kmipclient.ExecRegister
 	case "ec-pub":
 		return r.EcdsaPublicKey(&k.EC.PublicKey, kmip.CryptographicUsageVerify), ""
 	case "sym":
-		return r.SymmetricKey(kmip.CryptographicAlgorithmAES, kmip.CryptographicUsageEncrypt, append([]byte(nil), k.Sym...)), ""
+		return r.SymmetricKey(kmip.CryptographicAlgorithmAES, kmip.CryptographicUsageEncrypt, carve(k.Sym)), ""
 	}
 	return ex, "unknown kind"
 }
@@ -720,7 +758,7 @@ func runRegister(w *world, c Case, k poolKey) []string {
 // secrets go through the same path (Secret / SecretString builders)
 func runSecret(w *world, c Case, k poolKey) []string {
 	var problems []string
-	ex := w.clients[c.Ver].Register().Secret(kmip.SecretDataTypePassword, append([]byte(nil), k.Sym...))
+	ex := w.clients[c.Ver].Register().Secret(kmip.SecretDataTypePassword, carve(k.Sym))
 	g, p := transport(w, c, ex)
 	if p != "" {
 		return []string{"transport: " + p}
